@@ -384,6 +384,15 @@ def remove_block(
 
     cfi_directives = _required_cfi_directives(block)
 
+    # The outgoing edges need to be removed before the incoming edges are
+    # retargeted: removing a call edge also removes the callee's return edges
+    # to the call's return site, and a return edge that is retargeted from
+    # this block to the next block could otherwise be mistaken for one. It
+    # also needs to happen before deciding if the block can be removed so
+    # that an edge from the block to itself does not count as incoming
+    # control flow that needs to be preserved.
+    _remove_outgoing_edges(cache, block)
+
     can_remove = _can_remove_block(
         cache,
         block,
@@ -392,12 +401,6 @@ def remove_block(
         next_block,
         cfi_directives,
     )
-
-    # The outgoing edges need to be removed before the incoming edges are
-    # retargeted: removing a call edge also removes the callee's return edges
-    # to the call's return site, and a return edge that is retargeted from
-    # this block to the next block could otherwise be mistaken for one.
-    _remove_outgoing_edges(cache, block)
 
     if can_remove:
         sym_target = proxy_block or next_block or prev_block
